@@ -28,6 +28,7 @@ type Instance struct {
 	Race     bool
 	Horizon  int
 	NoSpin   bool
+	NoFreeze bool
 	Scenario vs.Scenario
 }
 
@@ -99,7 +100,7 @@ func Main(o Options) {
 }
 
 func cfgOf(in Instance, dl time.Time) vs.Config {
-	return vs.Config{Name: in.Name, Bound: in.Bound, Horizon: in.Horizon, Race: in.Race, Deadline: dl, NoSpin: in.NoSpin}
+	return vs.Config{Name: in.Name, Bound: in.Bound, Horizon: in.Horizon, Race: in.Race, Deadline: dl, NoSpin: in.NoSpin, NoFreeze: in.NoFreeze}
 }
 
 func runWorker(insts []Instance, dl time.Time) {
@@ -296,7 +297,7 @@ func merge(r *rep.Report, o Options, insts []Instance, stats []vs.Stats) {
 	}
 	rule := o.Rule
 	if rule == "" {
-		rule = "every schedule of each closed scenario instance with at most `bound` deviations (preemptions of an enabled thread or non-first ready select cases), bounds iterated from 0; evaluations = executions; distinct_nontrivial = distinct visible-step sequences in which at least two threads were simultaneously enabled (real contention); states = distinct hashes of visible-step prefixes"
+		rule = "every schedule of each closed scenario instance with at most `bound` deviations (running another thread than the fair round-robin default, descheduling the default thread until nothing else can run (freeze), or a non-first ready select case), bounds iterated from 0; evaluations = executions; distinct_nontrivial = distinct visible-step sequences in which at least two threads were simultaneously enabled (real contention); states = distinct hashes of visible-step prefixes"
 	}
 	if prev, ok := r.Coverage["rule"].(string); ok && prev != "" {
 		rule = prev + " || " + rule
